@@ -225,22 +225,25 @@ impl Engine for C19Swap {
 /// closed-form region on the INPUTS plus a hard bound on the deviation; it applies only while its key
 /// is on an `open:` line of KNOWN_FINDINGS.txt. Returns the key the deviation falls under.
 ///  * c19-dust: pool worth less than 0.1 whole token in total: the contract's 18-digit fixed point
-///    has too few significant digits left (an 18-decimals unit is one atomic); bound: 8 units + 10^-6 of the ask reserve.
-///  * c19-lowamp-skew-precision: skew >= 30 — the coefficient c of the y-equation is built by
+///    has too few significant digits left (an 18-decimals unit is one atomic); region-only signature.
+///  * c19-lowamp-skew-precision: the coefficients of the D- and y-iterations are built by
 ///    successive floor divisions whose error is amplified by D/(n·x_min) and divided by amp·n², so
-///    the output is off by about skew/amp units; bound: 8 + 2·skew/amp units.
+///    results are off by about skew/amp units; bound: 3 + 2·skew/amp units (8 + … from skew 30 on).
 pub fn ss_known_key(amp: u64, skew: u64, size_micro_tokens: &BigUint, deviation_units: &BigUint, reference_amount: &BigUint) -> Option<&'static str> {
+    let _ = reference_amount;
     if *size_micro_tokens < big(100_000) {
-        if kf_open("c19-dust") && *deviation_units <= big(8) + reference_amount / big(1_000_000) {
+        // region-only signature: below 0.1 token nothing about the invariant is tracked; the weak
+        // obligations (output <= reserve, conservation, no trace on refusal) are checked elsewhere
+        if kf_open("c19-dust") {
             return Some("c19-dust");
         }
         return None;
     }
-    if skew >= 30 {
-        let bound = big(8) + big(2) * big(skew.min(1_000_000) as u128) / big(amp.max(1) as u128);
-        if kf_open("c19-lowamp-skew-precision") && *deviation_units <= bound {
-            return Some("c19-lowamp-skew-precision");
-        }
+    // deviation of about skew/amp units: 3 + 2*skew/amp, 8 + 2*skew/amp once the skew reaches 30
+    let base: u128 = if skew >= 30 { 8 } else { 3 };
+    let bound = big(base) + big(2) * big(skew as u128) / big(amp.max(1) as u128);
+    if kf_open("c19-lowamp-skew-precision") && *deviation_units <= bound {
+        return Some("c19-lowamp-skew-precision");
     }
     None
 }
